@@ -36,9 +36,9 @@ func main() {
 		fmt.Printf("check %s: cannot load %s: %v\n", prop, *repo, err)
 		os.Exit(2)
 	}
-	opt := vc.CheckOpts{Prop: prop, Tier: *tier, VerifDir: *verif, Timeout: 10, Par: 16, Seed: seed}
+	opt := vc.CheckOpts{Prop: prop, Tier: *tier, VerifDir: *verif, Timeout: 20, Par: 16, Seed: seed}
 	if *tier == "thorough" {
-		opt.Timeout = 60
+		opt.Timeout = 90
 	}
 	if *only != "" {
 		opt.OnlyFuncs = []string{*only}
